@@ -73,6 +73,7 @@ var shapeFocus = map[string]string{
 	"removerealm-during-auth":              "getAuthenticator authClient RemoveRealm AttachClient close actionChan",
 	"stalled-metacall-unregister":          "unregister syncUnregister metaPeer yield syncYield createMetaSession dealer register",
 	"stalled-callee-cancel-kill":           "syncCancel cancel INTERRUPT trySend dealer call_canceling",
+	"denied-request-from-stalled-client":   "authzMessage Authorize handleInboundMessages not_authorized trySend close waitHandlers",
 	"stalled-rawsocket-then-close":         "rawSocketPeer websocketPeer Close writerDone sendHandler writeFrame SetWriteDeadline close handleSession",
 	"caller-leaves-with-armed-timer":       "syncRemoveSession removeSession timerCancel timers close dealer syncCall onLeave",
 	csShape:                                "syncCancel cancel INTERRUPT trySend dealer call_canceling",
@@ -98,6 +99,7 @@ var c06Shapes = []struct {
 	{"cancelled-stalled-metacall", 6}, {"publish-held-until-subscriber-closed", 5}, {"authz-held-at-close", 4},
 	{"join-in-burst", 5}, {"pending-calls", 6}, {"bad-realm-uri", 5}, {"removerealm-during-auth", 5},
 	{"caller-leaves-with-armed-timer", 8}, {"stalled-rawsocket-then-close", 5},
+	{"denied-request-from-stalled-client", 6},
 }
 
 type genOpts struct {
@@ -810,11 +812,40 @@ func genC06Base(o *genOpts, k int) *History {
 	b := newBuilder(r, "C06", shape, o.seed, o.thorough)
 	h := b.h
 	h.AfterCloseHours = r.between(1, 4)
+	h.MemStats = r.chance(50)
 	pre := r.between(0, 5)
 	if o.thorough {
 		pre = r.between(0, 14)
 	}
 	switch shape {
+	case "denied-request-from-stalled-client":
+		// A client whose queue is full and that does not read sends a request the
+		// realm's Authorizer refuses: the ERROR cannot be queued.  Optionally it
+		// is killed afterwards.  Then Close / RemoveRealm.
+		vs, _ := b.population(1, r.between(2, 3))
+		v := vs[0]
+		if b.qOf(v) > 2 {
+			h.Sessions[v].Q = queueSizes[r.intn(2)]
+		}
+		b.randomOps(pre / 2)
+		if !b.alive[v] || !b.fillVictim(v) {
+			break
+		}
+		switch r.intn(4) {
+		case 0:
+			b.add(Op{Op: "subscribe", S: v, Topic: "denied.t"})
+		case 1:
+			b.add(Op{Op: "register", S: v, Proc: "denied.p"})
+		case 2:
+			b.add(Op{Op: "call", S: v, Proc: "denied.p"})
+		default:
+			b.add(Op{Op: "publish", S: v, Topic: "denied.t", Ack: true})
+		}
+		if by := b.byIn(b.realmOf(v)); r.chance(35) && len(by) > 0 {
+			b.add(Op{Op: "kill", S: by[0], Target: v})
+			b.gone(v)
+		}
+		b.randomOps(r.between(0, 2))
 	case "stalled-rawsocket-then-close":
 		// One or two rawsocket clients (transport.AcceptRawSocket over net.Pipe)
 		// subscribe and stop reading; a local session publishes until the
@@ -1056,7 +1087,7 @@ func genC06Base(o *genOpts, k int) *History {
 func expandC06(o *genOpts, k int, base *History) []*History {
 	r := subRng(o.seed, "C06x", k)
 	kinds := []string{"Close"}
-	if o.thorough || base.Shape == "removerealm-during-auth" || base.Shape == "stalled-rawsocket-then-close" {
+	if o.thorough || base.Shape == "removerealm-during-auth" || base.Shape == "stalled-rawsocket-then-close" || base.Shape == "denied-request-from-stalled-client" {
 		kinds = append(kinds, "RemoveRealm")
 	} else if r.chance(30) {
 		kinds = []string{"RemoveRealm"}
@@ -1067,7 +1098,7 @@ func expandC06(o *genOpts, k int, base *History) []*History {
 		hv := *base // ops are shared between the variants (never modified)
 		h := &hv
 		h.Ops = ops
-		h.Close = &CloseSpec{Kind: kind, Pos: pos, InBurst: inBurst}
+		h.Close = &CloseSpec{Kind: kind, Pos: pos, InBurst: inBurst, Concurrent: kind == "Close" && !inBurst && base.MemStats && (pos+k)%2 == 0}
 		if kind == "RemoveRealm" {
 			h.Close.Realm = base.Realms[0]
 		}
